@@ -236,7 +236,8 @@ def judge(case, obs, pid=PID):
         if key in direct and want not in q:
             # excused: RX FIFO overflow, collisions, and - for fragment bursts - a receiver that is
             # itself a relay (half duplex: it cannot hear fragment k+1 while re-broadcasting k)
-            if obs["overflow"][key] == 0 and not (nfrag > 1 and (obs["ncoll"] > 0 or key in relays)):
+            # (a level-4 node with multicast_relay on re-broadcasts as well - towards a level nobody is on - and is just as deaf meanwhile)
+            if obs["overflow"][key] == 0 and not (nfrag > 1 and (obs["ncoll"] > 0 or key in case["relays"])):
                 v.append(("%s/missed:%s" % (pid, shape), "node %o of level %d did not receive the multicast (len %d)" % (key, L, len(msg))))
         if key in relayed and key not in direct and want not in q and clean and (nfrag == 1 or want in obs["queues"][relay_node]):
             v.append(("%s/relay-missed:%s" % (pid, shape), "node %o of level %d did not receive the multicast relayed by %o" % (key, lvl, relay_node)))
